@@ -897,10 +897,10 @@ def gen_headers_more(L, fr, bd, ls):
     L.append(f"def findMinSizeDefault : Nat := {m9.group(1)}")
     # what FrameCompressor::compress puts into the header
     fc = strip_comments(read("ruzstd/src/encoding/frame_compressor.rs"))
-    m = re.search(r"let\s+header\s*=\s*FrameHeader\s*\{\s*frame_content_size\s*:\s*None\s*,\s*single_segment\s*:\s*false\s*,\s*content_checksum\s*:\s*cfg!\(feature\s*=\s*\"hash\"\)\s*,\s*dictionary_id\s*:\s*None\s*,\s*window_size\s*:\s*Some\(self\.state\.matcher\.window_size\(\)\)\s*,?\s*\}", fc)
+    m = re.search(r"let\s+header\s*=\s*FrameHeader\s*\{\s*frame_content_size\s*:\s*None\s*,\s*single_segment\s*:\s*false\s*,\s*content_checksum\s*:\s*cfg!\(feature\s*=\s*\"hash\"\)\s*,\s*dictionary_id\s*:\s*None\s*,\s*window_size\s*:\s*Some\(\s*self\s*\.state\s*\.matcher\s*\.window_size\(\)\s*(?:\.max\(\s*u64::from\(\s*crate::common::MAX_BLOCK_SIZE\s*\)\s*\)\s*,?\s*)?\)\s*,?\s*\}", fc)
     if not m:
         raise ExtractError("extract:headers:FrameCompressor::compress header literal")
-    L.append("/-- `FrameCompressor::compress` builds `FrameHeader { frame_content_size: None, single_segment: false, content_checksum: cfg!(feature = \"hash\"), dictionary_id: None, window_size: Some(matcher.window_size()) }` (anchor present) -/")
+    L.append("/-- `FrameCompressor::compress` builds `FrameHeader { frame_content_size: None, single_segment: false, content_checksum: cfg!(feature = \"hash\"), dictionary_id: None, window_size: Some(matcher.window_size() [.max(MAX_BLOCK_SIZE), see Gen.frameDeclaresAtLeastMaxBlock]) }` (anchor present) -/")
     L.append("def compressHeaderShape : Bool := true")
     # ---------------- encoder: literals section headers
     c = strip_comments(read("ruzstd/src/encoding/blocks/compressed.rs"))
@@ -1292,9 +1292,11 @@ def gen_enc():
     B("hashesInputBlock", re.search(r"self\.hasher\.write\(\s*&uncompressed_data\s*\)\s*;", body) is not None,
       "`self.hasher.write(&uncompressed_data)` (the block read from the source is what is hashed)")
     # header fields
-    m = re.search(r"FrameHeader\s*\{\s*frame_content_size:\s*None\s*,\s*single_segment:\s*false\s*,\s*content_checksum:\s*cfg!\(feature\s*=\s*\"hash\"\)\s*,\s*dictionary_id:\s*None\s*,\s*window_size:\s*Some\(\s*self\.state\.matcher\.window_size\(\)\s*\)\s*,?\s*\}", body)
+    m = re.search(r"FrameHeader\s*\{\s*frame_content_size:\s*None\s*,\s*single_segment:\s*false\s*,\s*content_checksum:\s*cfg!\(feature\s*=\s*\"hash\"\)\s*,\s*dictionary_id:\s*None\s*,\s*window_size:\s*Some\(\s*self\s*\.state\s*\.matcher\s*\.window_size\(\)\s*(?P<max>\.max\(\s*u64::from\(\s*crate::common::MAX_BLOCK_SIZE\s*\)\s*\)\s*,?\s*)?\)\s*,?\s*\}", body)
     if not m:
         raise ExtractError("extract:enc:compress: FrameHeader literal")
+    B("frameDeclaresAtLeastMaxBlock", m.group("max") is not None,
+      "`window_size: Some(matcher.window_size().max(u64::from(MAX_BLOCK_SIZE)))`: the declared window covers every block (repair of F13)")
     # last-block logic of the read loop: `new_bytes == 0 -> last_block = true`, `read_bytes == len -> false`
     m = re.search(r"if\s+new_bytes\s*==\s*0\s*\{\s*last_block\s*=\s*(true|false)\s*;\s*break\s+'read_loop\s*;\s*\}\s*read_bytes\s*\+=\s*new_bytes\s*;\s*if\s+read_bytes\s*" + OPRE + r"\s*uncompressed_data\.len\(\)\s*\{\s*last_block\s*=\s*(true|false)\s*;\s*break\s+'read_loop\s*;", body)
     if not m:
